@@ -1831,11 +1831,19 @@ fn eval_for_in(
     let iteree_idx = match iteree_idx.as_ref() {
         Value_::Int(i) => *i,
         _ => {
-            unreachable!(
-                "`for` loop index should always be an `Int`, got `{}`: {}",
-                iteree_idx.display(env),
-                outer_expr.position.as_ide_string(&env.project_root)
-            )
+            // The interpreter itself only ever pushes an `Int` here, but
+            // `:replace` in a stopped session substitutes values on this
+            // stack: report it instead of taking the session down.
+            return Err((
+                RestoreValues(vec![iteree_idx.clone(), iteree_value.clone()]),
+                EvalError::Exception(ExceptionInfo {
+                    position: outer_expr.position.clone(),
+                    message: ErrorMessage(vec![Text(format!(
+                        "The position of this `for` loop should be an `Int`, but got `{}`.",
+                        iteree_idx.display(env)
+                    ))]),
+                }),
+            ));
         }
     };
 
